@@ -21,7 +21,7 @@ def firstOverflow (i : Rl4co.Svrp.Inst) (as : List Nat) : Int :=
   go (Rl4co.Svrp.reset i) 0 as
 
 def verdicts (i : Rl4co.Svrp.Inst) (as : List Nat) : String :=
-  s!"check={bit (Rl4co.Svrp.check i as)} feas={bit (Rl4co.Spec.Svrp.feasible i as)} closed={bit (Rl4co.Spec.Svrp.feasibleClosed i as)}"
+  s!"check={bit (Rl4co.Svrp.check i as)} feas={bit (Rl4co.Spec.Svrp.feasible i as)} closed={bit (Rl4co.Spec.Svrp.feasibleClosed i as)} canon={bit (Rl4co.Spec.Svrp.canonical i as)}"
 
 def episode (toks : List String) : Option String := do
   let (i, as) ← parse toks
